@@ -110,7 +110,7 @@ func checkC02(c *hx.Ctx) {
 		if r.Chance(1, 3) {
 			for k := 0; k < 1+r.Intn(2); k++ {
 				l := hx.Pick(r, []string{"u01", "u02", "u12", "r01", "d0"})
-				ops = append(ops, Place(u.Ops[l], uint64(5+r.Intn(3)), 0, "", p.GenesisTime)) // earlier "time" than published ones on purpose
+				ops = append(ops, Place(u.Ops[l], uint64(5+k), 0, "", p.GenesisTime)) // earlier "time" than published ones on purpose; distinct per operation
 				nUnpub++
 			}
 		}
@@ -167,6 +167,30 @@ func checkC02(c *hx.Ctx) {
 				return
 			}
 		}
+		// the same set with part of the operations supplied through WithAdditionalOperations (some of them twice)
+		for k := 0; k < 4; k++ {
+			split := make([]int, len(ops))
+			moved := 0
+			for x := range split {
+				split[x] = r.Intn(3)
+				if split[x] != 0 {
+					moved++
+				}
+			}
+			if ops[0].Type == "create" && r.Bool() {
+				split[0] = 0
+			}
+			c.Eval()
+			rm, err := SUTResolveSplit(pc, u.Suffix, ops, nil, split)
+			if got := rmKey(rm, err); got != first {
+				c.Violation(fmt.Sprintf("C02 resolution differs when part of the operations is supplied as additional operations: ops=[%s] split=%v\n   store only: %s\n   split:      %s", histString(ops), split, first, got),
+					map[string]interface{}{"suffix": u.Suffix, "ops": replayOps(ops), "split": split})
+				return
+			}
+			if moved > 0 {
+				c.Count("additional_operation_splits")
+			}
+		}
 		c.CountN("orders_tried", len(orders))
 		if nUnpub > 0 {
 			c.Count("sets_with_unpublished_competitor")
@@ -191,4 +215,5 @@ func checkC02(c *hx.Ctx) {
 	})
 	c.Floor("sets_with_disagreeing_time_and_number_order", 50)
 	c.Floor("sets_with_unpublished_competitor", 20)
+	c.Floor("additional_operation_splits", 100)
 }
